@@ -23,6 +23,65 @@ pub struct Control {
     force_stop: Arc<AtomicBool>,
 }
 
+/// Verification hook H1: a per-thread countdown consulted where the stop flag is loaded, so
+/// that the flag can be made to read true from the k-th poll on, plus counters of polls and
+/// of `should_stop` entries (to see whether anything was examined after the stop was seen).
+/// Disarmed unless a check arms it.
+#[cfg(jgilchrist_tcheran_verif)]
+pub mod verif {
+    use std::cell::Cell;
+
+    thread_local! {
+        static POLLS: Cell<u64> = const { Cell::new(0) };
+        static STOP_FROM_POLL: Cell<u64> = const { Cell::new(0) };
+        static FIRST_TRUE_POLL: Cell<u64> = const { Cell::new(0) };
+        static SHOULD_STOP_ENTRIES: Cell<u64> = const { Cell::new(0) };
+        static ENTRIES_AFTER_STOP: Cell<u64> = const { Cell::new(0) };
+    }
+
+    /// Reset all counters; `stop_from_poll` = 0 disarms, k >= 1 makes poll k and all later
+    /// polls read true.
+    pub fn arm(stop_from_poll: u64) {
+        POLLS.with(|c| c.set(0));
+        STOP_FROM_POLL.with(|c| c.set(stop_from_poll));
+        FIRST_TRUE_POLL.with(|c| c.set(0));
+        SHOULD_STOP_ENTRIES.with(|c| c.set(0));
+        ENTRIES_AFTER_STOP.with(|c| c.set(0));
+    }
+
+    /// (polls, first poll that read true or 0, should_stop entries, entries after the stop was seen)
+    pub fn observed() -> (u64, u64, u64, u64) {
+        (
+            POLLS.with(Cell::get),
+            FIRST_TRUE_POLL.with(Cell::get),
+            SHOULD_STOP_ENTRIES.with(Cell::get),
+            ENTRIES_AFTER_STOP.with(Cell::get),
+        )
+    }
+
+    pub(super) fn poll() -> bool {
+        let n = POLLS.with(|c| {
+            c.set(c.get() + 1);
+            c.get()
+        });
+        let from = STOP_FROM_POLL.with(Cell::get);
+        if from != 0 && n >= from {
+            if FIRST_TRUE_POLL.with(Cell::get) == 0 {
+                FIRST_TRUE_POLL.with(|c| c.set(n));
+            }
+            return true;
+        }
+        false
+    }
+
+    pub(super) fn enter_should_stop() {
+        SHOULD_STOP_ENTRIES.with(|c| c.set(c.get() + 1));
+        if FIRST_TRUE_POLL.with(Cell::get) != 0 {
+            ENTRIES_AFTER_STOP.with(|c| c.set(c.get() + 1));
+        }
+    }
+}
+
 impl Control {
     pub fn stop(&self) {
         self.force_stop.store(true, Ordering::Relaxed);
@@ -123,6 +182,9 @@ impl TimeStrategy {
     }
 
     pub fn should_stop(&mut self, nodes_visited: u64) -> bool {
+        #[cfg(jgilchrist_tcheran_verif)]
+        verif::enter_should_stop();
+
         if nodes_visited < self.next_check_at {
             return false;
         }
@@ -141,6 +203,11 @@ impl TimeStrategy {
     }
 
     fn is_force_stopped(&self) -> bool {
+        #[cfg(jgilchrist_tcheran_verif)]
+        if verif::poll() {
+            return true;
+        }
+
         self.force_stop.load(Ordering::Relaxed)
     }
 }
